@@ -692,8 +692,17 @@ class Frame:
             return self.as_sequence(Iter(t.shape[0], item))
         if isinstance(it, SStr):
             return Iter(it.length, lambda i: ('char', it, i))
-        if isinstance(it, (CatList, StackList)):
-            raise Unsupported("iteration over abstract list")
+        if isinstance(it, StackList):
+            lst = it
+
+            def item(j, lst=lst):
+                rows = [basic_index(v, (j,), None) for v in lst.views]
+                if lst.tuple_kind is None:
+                    return rows[0]
+                return tuple(rows) if lst.tuple_kind == 'tuple' else list(rows)
+            return Iter(lst.count, item)
+        if isinstance(it, CatList):
+            raise Unsupported("iteration over a cat-abstracted list")
         if isinstance(it, str):
             return list(it)
         raise Unsupported("iteration over %r" % (type(it),))
